@@ -403,7 +403,7 @@ def run(ctx: Ctx):
     for f in L.rp_files():
         bad = L.risk_sanity(f)
         ctx.note("risk_params_sane:" + f.split("/")[-1].replace("Aave Protocol Parameter ", ""), "ok" if not bad else bad[:5])
-    n = ctx.scale(1000, 30000)
+    n = ctx.scale(800, 20000)
     reqs = []
     for i in range(n):
         r = ctx.rng.random()
